@@ -838,9 +838,13 @@ class Sim:
                 feats.append("batch>active")
             if algo in ("PaVeBaGP", "PaVeBaPartialGP") and int(self.sc.get("batch", 1)) > len(Sx | Ux):
                 feats.append("batch>active")
-            if self.W.shape[0] != self.W.shape[1]:
+            if algo == "DecoupledGP" and int(self.sc.get("batch", 1)) > len(a.points):
+                feats.append("batch>active")
+            if algo == "VOGP_AD" and a.design_space.domain_dim < a.m:
+                feats.append("in_dim<m")
+            if self.W.shape[0] != self.W.shape[1] and self.conf_kind == "hyperrectangle" and algo in PAVEBA_FAMILY:
                 feats.append("Kf!=m")
-            if len(Sx | (Ux if algo in PAVEBA_FAMILY else Px)) == 1:
+            if len(Sx | (Ux if algo in PAVEBA_FAMILY else Px)) == 1 and algo != "VOGP_AD":
                 feats.append("single-active")
             self.judge("C06", "exc")
             self.violate("C06", f"exception:{type(e).__name__}:{where}:{'+'.join(feats) or 'plain'}", {"exc": repr(e)[:300], "tb": [f"{f.filename.split('/vopy/')[-1]}:{f.lineno}:{f.name}" for f in frames][-6:], "phase": self.ctx.phase, "S": sorted(S0), "P": sorted(P0)})
